@@ -41,18 +41,24 @@ pub fn decode_case(bytes: &[u8], tier: Tier, restarts: bool, releases: bool) -> 
 }
 
 /// Execute one sequential case; `Err` = deadlock or panic.
-pub fn exec_case(case: &Case, which: Which, check_c03: bool) -> Result<Outcome, RunError> {
+pub fn exec_case(
+    case: &Case,
+    which: Which,
+    check_c03: bool,
+    raw: bool,
+) -> Result<Outcome, RunError> {
     let prog = Arc::new(case.prog.clone());
     let steps = case.steps.clone();
     match which {
         Which::A => run_paused(async move {
-            run_case(BackendA, prog, &steps, 0, check_c03).await.0
+            run_case(BackendA, prog, &steps, 0, check_c03, !raw).await.0
         }),
         Which::B => {
             let store = Arc::new(Store::new());
             let backend = BackendB::from_knobs(store, case.knobs);
             run_paused(async move {
-                let (mut out, b) = run_case(backend, prog, &steps, 0, check_c03).await;
+                let (mut out, b) =
+                    run_case(backend, prog, &steps, 0, check_c03, !raw).await;
                 out.quiesce_timeouts += b
                     .quiesce_timeouts
                     .load(std::sync::atomic::Ordering::SeqCst)
@@ -118,8 +124,31 @@ fn to_result(
 pub fn run_bytes(prop: &'static str, bytes: &[u8], tier: Tier, which: Which) -> (Case, CaseResult) {
     let restarts = prop == "C07";
     let case = decode_case(bytes, tier, restarts, which == Which::B);
-    let r = exec_case(&case, which, prop != "C01");
-    let cr = to_result(prop, &case, r, which);
+    let cr = run_struct(prop, &case, which, false);
+    (case, cr)
+}
+
+pub fn run_struct(prop: &'static str, case: &Case, which: Which, raw: bool) -> CaseResult {
+    let r = exec_case(case, which, prop != "C01", raw);
+    to_result(prop, case, r, which)
+}
+
+/// Replay document: {property, config, raw, message, case}
+pub fn replay_doc(prop: &str, which: Which, raw: bool, message: &str, case: &Case) -> serde_json::Value {
+    serde_json::json!({
+        "property": prop,
+        "config": if which == Which::A { "A" } else { "B" },
+        "raw": raw,
+        "message": message,
+        "case": case.to_json(),
+    })
+}
+
+pub fn run_doc(prop: &'static str, doc: &serde_json::Value) -> (Case, CaseResult) {
+    let which = if doc["config"].as_str() == Some("B") { Which::B } else { Which::A };
+    let raw = doc["raw"].as_bool().unwrap_or(false);
+    let case = Case::from_json(&doc["case"]);
+    let cr = run_struct(prop, &case, which, raw);
     (case, cr)
 }
 
@@ -144,10 +173,7 @@ pub fn check(prop: &'static str, tier: Tier) -> Report {
     ];
     let tolerated = known::tolerated(prop);
     // regression tier: replay saved cases of fixed findings and known findings
-    known::replay_regressions(prop, &mut report, &|bytes: &[u8], cfg: &str| {
-        let which = if cfg == "A" { Which::A } else { Which::B };
-        run_bytes(prop, bytes, Tier::Quick, which).1
-    });
+    known::replay_regressions(prop, &mut report, &|doc| run_doc(prop, doc).1);
 
     let plan: Vec<(Which, u64, usize)> = match (prop, tier) {
         ("C07", Tier::Quick) => vec![(Which::B, 2500, 1200)],
@@ -180,9 +206,8 @@ pub fn check(prop: &'static str, tier: Tier) -> Report {
                 f.message,
                 case.pretty()
             );
-            let mut tagged = vec![which as u8, tier as u8];
-            tagged.extend_from_slice(&f.bytes);
-            let path = write_replay(prop, &tagged, &pretty);
+            let doc = replay_doc(prop, which, false, &f.message, &case);
+            let path = write_replay(prop, &doc, &pretty);
             report.violations.push((path.display().to_string(), f.message));
             ev.violations += 1;
             break;
@@ -192,16 +217,26 @@ pub fn check(prop: &'static str, tier: Tier) -> Report {
     report
 }
 
-/// Replay a saved case file (first two bytes: config, tier).
+/// Replay a saved case file (JSON document written by `write_replay`).
 pub fn replay(prop: &'static str, path: &str) -> Report {
     let mut report = Report { property: prop.to_string(), ..Report::default() };
-    let data = std::fs::read(path).expect("read replay file");
-    let which = if data.first() == Some(&0) { Which::A } else { Which::B };
-    let tier = if data.get(1) == Some(&1) { Tier::Thorough } else { Tier::Quick };
-    let (case, cr) = run_bytes(prop, &data[2..], tier, which);
+    let txt = std::fs::read_to_string(path).expect("read replay file");
+    let doc: serde_json::Value = serde_json::from_str(&txt).expect("replay json");
+    let (case, cr) = run_doc(prop, &doc);
     println!("{}", case.pretty());
     if let Some(v) = cr.violation {
         report.violations.push((path.to_string(), v));
     }
     report
+}
+
+/// One-off helper: convert a raw byte case (config, tier, bytes...) to JSON.
+pub fn convert(prop: &'static str, path: &str, raw: bool) {
+    let data = std::fs::read(path).expect("read");
+    let which = if data.first() == Some(&0) { Which::A } else { Which::B };
+    let tier = if data.get(1) == Some(&1) { Tier::Thorough } else { Tier::Quick };
+    let case = decode_case(&data[2..], tier, prop == "C07", which == Which::B);
+    let doc = replay_doc(prop, which, raw, "", &case);
+    let p = write_replay(prop, &doc, &case.pretty());
+    println!("{}", p.display());
 }
